@@ -1,7 +1,7 @@
 """C10 - a sensitive-value mask hides every sensitive value at every depth of the tree."""
 from typing import Optional
 
-from cincoconfig import IntField, ListField, Schema, SecureField, StringField
+from cincoconfig import IntField, ListField, Schema, SecureField, StringField, VirtualField
 from cincoconfig.core import Config
 
 from vf.hlib import hold, known, obligation, skip
@@ -183,4 +183,33 @@ def dumps_passes_mask(mask: Optional[str], sp: bool) -> bool:
         _set(cfg, "nested", "secret", 7, "a")
         handle = cfg.dumps(format="mem", sensitive_mask=mask)
         hold("doc", mem.docs[handle] == cfg.to_tree(sensitive_mask=mask), "document differs from the masked tree")
+    return True
+
+
+@obligation(prop="C10", sites=("virt",), encodes=ENC, budget={"quick": 120, "thorough": 300},
+            what="virtual fields marked sensitive, at the root and nested, rendered with virtual=True: masked like "
+                 "stored sensitive fields (mask None or symbolic |mask|<=2); non-sensitive virtual fields unchanged")
+def mask_virtual(sens: bool, nested: bool, mask: Optional[str]) -> bool:
+    """
+    pre: mask is None or len(mask) <= 2
+    post: _
+    """
+    schema = Schema()
+    owner = schema.db if nested else schema
+    owner.user = StringField(default="admin")
+    owner.password = StringField(default="hunter2", sensitive=True)
+    owner.dsn = VirtualField(lambda cfg: "db://" + cfg.user + ":" + cfg.password, sensitive=sens)
+    cfg = schema()
+    unmasked = cfg.to_tree(virtual=True)
+    masked = cfg.to_tree(virtual=True, sensitive_mask=mask)
+    node_u = unmasked["db"] if nested else unmasked
+    node_m = masked["db"] if nested else masked
+    hold("virt", node_u["dsn"] == "db://admin:hunter2", "virtual value")
+    if mask is None or not sens:
+        hold("virt", node_m["dsn"] == node_u["dsn"], "non-sensitive virtual field (or no mask) altered")
+    else:
+        hold("virt", node_m["dsn"] == _mask_value(node_u["dsn"], mask),
+             lambda: "sensitive virtual field rendered as %r" % (node_m["dsn"],))
+    if mask is not None:
+        hold("virt", node_m["password"] == _mask_value("hunter2", mask) and node_m["user"] == "admin", "stored fields")
     return True
